@@ -17,6 +17,10 @@ import GoDebian.Lemmas.DocsValue
 import GoDebian.Lemmas.DocsStruct
 import GoDebian.Lemmas.CodecRecord
 import GoDebian.Lemmas.DocsRead
+import GoDebian.Model.Accessors
+import GoDebian.Lemmas.Paths
+import GoDebian.Lemmas.CodecPara
+import GoDebian.Lemmas.DepGrammarTop
 
 namespace GoDebian.Props.C10
 open GoDebian GoDebian.Deb822 GoDebian.Codec GoDebian.Extracted.Schemas
@@ -336,5 +340,185 @@ example (fs : List Field) (s : Schema) (h : schema_control_DSC = some fs)
   · rw [← hpara] at hp ⊢
     exact C10_unmarshal_rendered dsc fs s dscModel dscFields cs (h ▸ Tie.Docs.schema_DSC)
       (h ▸ C10_fits_DSC) hs (Lemmas.Docs.wfModel_of_B hm) hreq hwf hp
+
+/-! ### Accessors derived from the decoded fields
+
+`Model/Accessors.lean` is the transliteration of the accessor methods; the `acc-*`
+operations of the correspondence stream call the real methods on structs holding the same
+field values.  These theorems state what each accessor returns. -/
+
+section accessors
+open GoDebian.Acc GoDebian.Lemmas.Paths
+
+/-- `Maintainers()`: the maintainer first, then the uploaders in order -/
+theorem C10_acc_maintainers (m : Bytes) (us : List Bytes) :
+    (maintainers m us).head? = some m ∧ (maintainers m us).tail = us ∧
+    (maintainers m us).length = us.length + 1 := by
+  simp [maintainers]
+
+/-- `HasArchAll()` holds exactly when the architecture list contains `all` -/
+theorem C10_acc_hasArchAll (archs : List Dep.Arch) :
+    hasArchAll archs = true ↔ (⟨Dep.sAll, Dep.sAll, Dep.sAll⟩ : Dep.Arch) ∈ archs := by
+  unfold hasArchAll
+  rw [List.any_eq_true]
+  constructor
+  · rintro ⟨a, ha, h⟩
+    simp only [Bool.and_eq_true, decide_eq_true_eq] at h
+    obtain ⟨⟨h1, h2⟩, h3⟩ := h
+    have : a = ⟨Dep.sAll, Dep.sAll, Dep.sAll⟩ := by cases a; simp_all
+    exact this ▸ ha
+  · intro h
+    exact ⟨_, h, by simp⟩
+
+/-- a parsed `Architecture` field that lists the name "all" has an arch:all entry -/
+theorem C10_acc_hasArchAll_of_name (names : List Bytes) (archs : List Dep.Arch)
+    (hp : names.mapM Dep.parseArch = .ok archs) (h : Dep.sAll ∈ names) : hasArchAll archs = true := by
+  rw [C10_acc_hasArchAll]
+  induction names generalizing archs with
+  | nil => simp at h
+  | cons n rest ih =>
+    simp only [List.mapM_cons, bind, Except.bind] at hp
+    cases hn : Dep.parseArch n with
+    | error e => simp [hn] at hp
+    | ok a =>
+      simp only [hn] at hp
+      cases hr : rest.mapM Dep.parseArch with
+      | error e => simp [hr] at hp
+      | ok as =>
+        simp only [hr, pure, Except.pure, Except.ok.injEq] at hp
+        subst hp
+        rcases List.mem_cons.mp h with e | hm
+        · subst e
+          have : Dep.parseArch Dep.sAll = .ok ⟨Dep.sAll, Dep.sAll, Dep.sAll⟩ := by decide +kernel
+          rw [this] at hn
+          injection hn with hn
+          simp [hn]
+        · exact List.mem_cons_of_mem _ (ih as hr hm)
+
+/-- `SourcePackage()`: without a Source field the package is its own source -/
+theorem C10_acc_sourcePackage_default (p : Bytes) : sourcePackage p [] = p := by
+  simp [sourcePackage]
+
+/-- a Source field that is just a name -/
+theorem C10_acc_sourcePackage_name (p s : Bytes) (hs : s ≠ []) (h : 32 ∉ s) : sourcePackage p s = s := by
+  have he : s.isEmpty = false := by cases s with | nil => exact absurd rfl hs | cons a t => rfl
+  have hc : Str.contains s [32] = false := by
+    unfold Str.contains
+    rw [show Str.indexOf [32] s = Str.indexByte 32 s from rfl, Lemmas.Str.indexByte_of_not_mem h]
+    rfl
+  simp [sourcePackage, he, hc]
+
+/-- a Source field of the form "name (version)": the name -/
+theorem C10_acc_sourcePackage_versioned (p name rest : Bytes) (h : 32 ∉ name) :
+    sourcePackage p (name ++ 32 :: rest) = name := by
+  have he : (name ++ 32 :: rest).isEmpty = false := by simp
+  have hc : Str.contains (name ++ 32 :: rest) [32] = true := by
+    unfold Str.contains
+    rw [show Str.indexOf [32] (name ++ 32 :: rest) = Str.indexByte 32 (name ++ 32 :: rest) from rfl,
+      Lemmas.Str.indexByte_append rest h]
+    rfl
+  have hs : (Str.split [32] (name ++ 32 :: rest)).headD [] = name := by
+    unfold Str.split
+    have : (name ++ 32 :: rest).length + 2 = ((name ++ 32 :: rest).length + 1) + 1 := rfl
+    rw [this]
+    simp only [Str.splitNAux]
+    rw [if_neg (by simp), Lemmas.Deb822WriteStr.cut_append rest h]
+    rfl
+  simp only [List.headD_eq_head?_getD] at hs
+  simp [sourcePackage, he, hc, hs]
+
+/-- `BestChecksums.Checksums()`: the SHA-256 list when it has entries, else the SHA-512 list -/
+theorem C10_acc_bestChecksums (a b : List Hash) :
+    Acc.bestChecksums a b = if a ≠ [] then a else b := by
+  unfold Acc.bestChecksums
+  cases a with
+  | nil => cases b <;> simp
+  | cons x xs => simp
+
+/-- and never an entry of a weaker algorithm -/
+theorem C10_acc_bestChecksums_secure (a b : List Hash)
+    (ha : ∀ h ∈ a, h.algorithm = Bytes.ofString "sha256") (hb : ∀ h ∈ b, h.algorithm = Bytes.ofString "sha512") :
+    ∀ h ∈ Acc.bestChecksums a b, h.algorithm = Bytes.ofString "sha256" ∨ h.algorithm = Bytes.ofString "sha512" := by
+  rw [C10_acc_bestChecksums]
+  intro h hm
+  split at hm
+  · exact Or.inl (ha h hm)
+  · exact Or.inr (hb h hm)
+
+/-- the on-demand relationship accessors: a field holding any legal rendering of a
+    relationship AST gives the structure the AST denotes (via C04_parse_render) -/
+theorem C10_acc_optionalDependency (p : Paragraph) (field : Bytes) (d : Spec.Dependency.SDep)
+    (cs : Spec.Deb822.Choices) (h : Spec.Dependency.wfDep d = true) :
+    optionalDependency (p.set field (Spec.Dependency.render d cs)) field = Spec.Dependency.denote d := by
+  unfold optionalDependency
+  rw [Lemmas.Codec.get_set, if_pos rfl, Lemmas.DepGrammarTop.parse_render d cs h]
+
+/-- an absent field gives the empty dependency -/
+theorem C10_acc_optionalDependency_absent (p : Paragraph) (field : Bytes)
+    (h : lookup field p.values = none) : optionalDependency p field = [] := by
+  unfold optionalDependency Paragraph.get
+  rw [h]
+  have : Dep.parse ([] : Bytes) = .ok [] := by decide +kernel
+  simp [this]
+
+/-- `AbsFiles()`: for a handle at the canonical absolute path `dir/f`, every listed plain
+    name `n` becomes `dir/n`; lengths and order are kept -/
+theorem C10_acc_absFiles (dir : List Bytes) (f : Bytes) (names : List Bytes)
+    (hd : ∀ c ∈ dir, PlainComp c) (hf : PlainComp f) (hn : ∀ n ∈ names, PlainComp n) :
+    absFiles (canon (dir ++ [f])) names = names.map (fun n => canon (dir ++ [n])) := by
+  unfold absFiles
+  apply List.map_congr_left
+  intro n hm
+  unfold absFile
+  rw [dir_canon_snoc hd hf, join_canon hd (hn n hm)]
+
+/-- whatever spelling of the path a file entry point is given (relative, with "." / ".."
+    / doubled slashes, absolute), the handle's Filename is a canonical absolute path -/
+theorem C10_acc_parseFileName_abs (cwd : List Bytes) (hc : ∀ c ∈ cwd, PlainComp c) (path : Bytes) :
+    ∃ cs, (∀ c ∈ cs, PlainComp c) ∧ parseFileName (canon cwd) path = canon cs :=
+  abs_canon hc path
+
+/-- a plain file name relative to the working directory: `cwd/name` -/
+theorem C10_acc_parseFileName_relative (cwd : List Bytes) (hc : ∀ c ∈ cwd, PlainComp c) (name : Bytes)
+    (hn : PlainComp name) : parseFileName (canon cwd) name = canon (cwd ++ [name]) := by
+  unfold parseFileName abs isAbs
+  have : name.head? ≠ some 47 := by
+    intro e
+    cases name with
+    | nil => simp at e
+    | cons a t => simp only [List.head?_cons, Option.some.injEq] at e; exact hn.2.2.2 (by simp [e])
+  simp only [this, decide_false, Bool.false_eq_true, if_false]
+  exact join_canon hc hn
+
+/-- `Changes.GetDSC()` opens `dir/n` for the first listed name `n` ending in ".dsc" -/
+theorem C10_acc_getDSC (cwd dir : List Bytes) (f : Bytes) (names : List Bytes) (n : Bytes)
+    (hd : ∀ c ∈ dir, PlainComp c) (hf : PlainComp f) (hn : PlainComp n)
+    (hfind : names.find? (fun n => Str.hasSuffix n (Bytes.ofString ".dsc")) = some n) :
+    getDSCPath (canon cwd) (canon (dir ++ [f])) names = .ok (canon (dir ++ [n])) := by
+  unfold getDSCPath
+  rw [hfind, dir_canon_snoc hd hf]
+  simp only
+  have hr : (canon dir ++ [47] ++ n).head? = some 47 := by simp [canon]
+  have hj : Path.join (canon dir) n = Path.clean (canon dir ++ [47] ++ n) := by
+    unfold Path.join
+    have h1 : (canon dir).isEmpty = false := by simp [canon]
+    have h2 : n.isEmpty = false := by cases n with | nil => exact absurd rfl hn.1 | cons a t => rfl
+    simp [h1, h2]
+  unfold abs isAbs
+  simp only [hr, decide_true, if_true]
+  rw [← hj, join_canon hd hn]
+
+/-- /srv/incoming/foo_1.dsc listing a tarball and a diff; "incoming/x.dsc" seen from /srv -/
+example :
+    let B := Bytes.ofString
+    absFiles (B "/srv/incoming/foo_1.dsc") [B "foo_1.tar.gz", B "foo_1.diff.gz"]
+      = [B "/srv/incoming/foo_1.tar.gz", B "/srv/incoming/foo_1.diff.gz"] ∧
+    parseFileName (B "/srv") (B "incoming/./x/../x.dsc") = B "/srv/incoming/x.dsc" ∧
+    sourcePackage (B "libfoo1") (B "foo (1.0-1)") = B "foo" ∧
+    getDSCPath (B "/") (B "/srv/incoming/foo_1_amd64.changes") [B "foo_1.tar.gz", B "foo_1.dsc"]
+      = .ok (B "/srv/incoming/foo_1.dsc") := by
+  decide +kernel
+
+end accessors
 
 end GoDebian.Props.C10
